@@ -7,7 +7,11 @@ import (
 	"flag"
 	"fmt"
 	"os"
+	"runtime"
 	"sort"
+	"strings"
+	"sync/atomic"
+	"time"
 
 	"verif/harness/h"
 )
@@ -47,6 +51,7 @@ func main() {
 		os.Exit(2)
 	}
 	res := h.NewResult(prop, *tier, *seed)
+	go stallWatchdog(prop, *tier)
 	if err := fn(res, h.NewRng(*seed), *tier, *replay); err != nil {
 		fmt.Fprintln(os.Stderr, "HARNESS-ERROR:", err)
 		os.Exit(3)
@@ -58,4 +63,46 @@ func main() {
 		}
 	}
 	fmt.Printf("vcheck %s: %d evaluations, %d disagreements, %d violations\n", prop, res.Evaluations, len(res.Disagreements), len(res.Violations))
+}
+
+// stallWatchdog ends a run in which no case has been judged for a long time: the code under test blocks the harness for
+// good (e.g. a promise that is never completed). The check reports the run as a broken obligation (harness-crash) with the
+// stacks below instead of waiting for its own, much longer, time limit. C05/C12 run their cases in child processes with
+// their own deadlines (and confirmation runs of up to 15 min): no watchdog there.
+func stallWatchdog(prop, tier string) {
+	limit := 600 * time.Second
+	if v, err := time.ParseDuration(os.Getenv("VCHECK_STALL")); err == nil && v > 0 {
+		limit = v
+	} else if tier != "quick" {
+		limit = 1500 * time.Second
+	}
+	if prop == "C05" || prop == "C12" || len(prop) != 3 { // children (C12-child, C09child, C14hist, …) have their parents' limits
+		return
+	}
+	last, lastT := atomic.LoadInt64(&h.Progress), time.Now()
+	for {
+		time.Sleep(5 * time.Second)
+		if n := atomic.LoadInt64(&h.Progress); n != last {
+			last, lastT = n, time.Now()
+			continue
+		}
+		if time.Since(lastT) > limit {
+			buf := make([]byte, 1<<20)
+			n := runtime.Stack(buf, true)
+			var keep []string
+			for _, g := range strings.Split(string(buf[:n]), "\n\n") {
+				if strings.Contains(g, "metrico/qryn") || strings.Contains(g, "cmd/vcheck.") {
+					if len(g) > 1200 {
+						g = g[:1200]
+					}
+					keep = append(keep, g)
+				}
+				if len(keep) >= 12 {
+					break
+				}
+			}
+			fmt.Fprintf(os.Stderr, "HARNESS-STALL: no case judged for %s (after %d cases); goroutines in qryn / harness code:\n%s\n", limit, last, strings.Join(keep, "\n\n"))
+			os.Exit(4)
+		}
+	}
 }
